@@ -23,7 +23,7 @@ CONSTANTS NBars,      \* bars per history
 VARIABLES c, p, a, b, ra, rb
 vars == <<c, p, a, b, ra, rb>>
 
-FactorOf(kind, f) == IF kind = "mix" THEN MixBlock ELSE IF f = 1 THEN 1 ELSE IF kind = "deribit" THEN 2 ELSE f
+FactorOf(kind, f) == IF kind = "mix" THEN 1 ELSE IF f = 1 THEN 1 ELSE IF kind = "deribit" THEN 2 ELSE f
 Cfgs  == {[kind |-> k, F |-> FactorOf(k, f), script |-> s] : k \in Kinds, f \in Factors, s \in Scripts}
 NoCfg == [kind |-> "none", F |-> 1, script |-> 0]
 NoRun == [obs |-> <<>>, frame |-> <<>>]
